@@ -36,6 +36,14 @@ Comps == <<
   Comp("nested-oneof", << SOneOf(<< SObjClosed(Props1("x", SInt), {"x"}), SObjClosed(Props1("y", SStr), {"y"}) >>),
                           SObj(Props1("x", SInt), {}) >>, << >>),
   Comp("oneof-and-obj", << SOneOf(<< SObj(Props1("x", SInt), {"x"}), SObj(Props1("y", SStr), {"y"}) >>), OC >>, << >>),
+  Comp("num-enum-number", << [enum |-> <<JInt(1), JHalf(5), JInt(4)>>], SNum >>, << >>),
+  Comp("int-enum-integer", << [enum |-> <<JInt(1), JInt(2), JInt(3)>>], SInt >>, << >>),
+  Comp("int-enum-number", << [enum |-> <<JInt(1), JInt(2)>>], SNum >>, << >>),
+  Comp("typed-num-enum-number", << [type |-> "number", enum |-> <<JInt(0), JHalf(3)>>], SNum >>, << >>),
+  Comp("bool-enum-boolean", << [enum |-> <<JBool(TRUE)>>], SBool >>, << >>),
+  Comp("mixed-enum-string", << [enum |-> <<JInt(1), JS(<<"a">>), JS(<<"b">>)>>], SStr >>, << >>),
+  Comp("mixed-enum-integer", << [enum |-> <<JInt(1), JS(<<"a">>), JInt(7)>>], SInt >>, << >>),
+  Comp("ref-num-enum-number", << SRef("N"), SNum >>, ("N" :> [enum |-> <<JInt(1), JHalf(5), JInt(4)>>])),
   Comp("unsat-types", << SStr, SInt >>, << >>),
   Comp("unsat-enums", << EnumS(<<JS(<<"a">>)>>), EnumS(<<JS(<<"b">>)>>) >>, << >>),
   Comp("unsat-required-false", << SObj(Props1("a", SFalse), {}), SObj(Props1("a", SInt), {"a"}) >>, << >>),
